@@ -14,11 +14,31 @@ Tie (every run):
   ts.design / ts.steady   the same through `TimeSeries.get(filterargs=…)` / `TimeSeries.filter` after windowing, resampling
               to a step or an array, tapering and for a non-equidistant series: the design must be the model's design for
               the step of the *returned* time array.
+  ts.tagged / ts.tagged-filter   exact (Rat) execution of the model's `tsGet` / `tsFilter` (driver ops `flt.tsget`,
+              `flt.tsfilter`) against the real `TimeSeries.get(filterargs=…)` / `TimeSeries.filter` on small dyadic series, with
+              scipy's `butter` / `filtfilt` / `sosfiltfilt` (as seen by `qats.signal`) and `taper` (as seen by `qats.ts`) replaced
+              on both sides by the same tag functions: the reply carries the design the filter stage built (order, type,
+              normalised cut-offs: hence the step and cut-offs it was given) in front of the samples it received (hence the
+              order window -> resample -> taper -> filter); error kinds for a wrong number of frequencies / empty window /
+              array + window / request outside the span; every call is issued twice on the same object;
+  arity       `Kind.arity` (`flt.arity`) against the number of frequencies `TimeSeries.filter` accepts;
+  lin         the model's `(steadyState spec dt (Signal.comb a x b y)).eval t` (`flt.lin`) against samples of the filtered
+              two-component signal `a x + b y` taken in the central part of the record.
 Oracles (implementation alone; expected values never come from the Lean model): gain 1/2 and no phase shift at every
 cut-off; complex gain = reference Butterworth-squared magnitude with zero phase; the filtered sinusoid is a pure sinusoid
 of the same frequency; pass/stop band bounds 2^-10 at half / twice the cut-off; linearity; mean kept (lp, bs) / removed
 (hp, bp); low+high and pass+stop reconstruct the signal; `filter()` == `get(filterargs=…)`; every call with cut-offs below
 Nyquist returns.
+The same clauses are evaluated on other spellings of the same request (signal as list / tuple / float32 / int64 / strided /
+read-only array, dt and cut-offs as int / numpy scalars, keyword calls, explicit `order=5`; `filterargs` as list, window as
+list, resampling step as numpy scalar or list, options that are given but do nothing, integer time arrays), through every
+public route that reaches the filters (`get`, `filter`, `modify`, `copy().get`, `TsDB.geta`, `TsDB.getda`,
+`qats.app.funcs.calculate_trace`), on signals in other units (x 2^p, |p| <= 200) and on large mean levels, for sampling
+intervals 1e-6 … 3e3 s, cut-offs up to 0.99 Nyquist and test frequencies 0.002 … 0.998 Nyquist, on the second call with the
+same array, and after histories on one TimeSeries object (other filter types / cut-offs / resampling steps, rejected
+requests, data replaced or edited in place between calls, a second object built from the same arrays) and sequences of calls
+in one process that share a cut-off but not the sampling interval or the filter type.
+An exception raised by the implementation anywhere in a case is a failing clause ("returns a filtered signal").
 """
 import inspect
 import math
@@ -34,7 +54,20 @@ RULE = ("seeded sampling intervals 10^U(-3,1) s (plus dyadic steps) x four filte
         "300 / min(edge, band width, distance to Nyquist) samples, at least 2000; fixed corner cases first (cut-off = half "
         "Nyquist, band centre, edges at 0.02 / 0.97 Nyquist, dt 1e-3 and 10); TimeSeries level: plain, time window, resample "
         "to k*dt, resample to an array, taper, non-equidistant times; non-trivial = gain strictly between 1e-6 and 1-1e-6; "
-        "distinct by input")
+        "distinct by input.  Added classes (corpus/C12/audit_corners.json first): rim of the quantifier (dt 1e-6 … 3e3 s and 2^-20, "
+        "2^10; cut-offs to 0.99 Nyquist; test frequency 0.002 … 0.998 Nyquist; amplitude and mean x 2^p, |p| <= 200; mean up to "
+        "1000 x amplitude; each filter type has fixed representatives); spellings (signal as list / tuple / float32 / int64 / "
+        "strided / negative-stride / read-only array; dt and cut-offs as int, numpy int64 / float64 / float32; keyword calls; "
+        "explicit order 5; half of them called twice with the same array object); TimeSeries level spelled (filterargs list / "
+        "tuple, cut-offs int / numpy, window as list, step as numpy scalar, requested times as list, integer time array, "
+        "float32 / int64 / read-only source arrays, time offsets 2^20, options that do nothing: whole-series window, taperfrac "
+        "0 / 0.0 / 1.0, window_len 1) through get / filter / modify / copy().get / TsDB.geta / TsDB.getda / "
+        "qats.app.funcs.calculate_trace; histories of 6-9 steps on one TimeSeries (retrievals that differ from the previous one "
+        "in one of type / cut-offs / resampling step, rejected requests, data replaced or scaled in place, a second object "
+        "from the same arrays) and sequences of 6-10 qats.signal calls in one process sharing cut-offs: clauses evaluated "
+        "after every step; exact tie of tsGet / tsFilter on dyadic series of 3-24 samples (uniform or irregular) x window "
+        "(inside / partly outside / empty / single sample) x resampling step / array (also outside the span, also with a "
+        "window) x taper x 0-3 frequencies, each request issued twice, bit-exact where the float pipeline is exact, else 1e-12")
 
 KINDS = ("lp", "hp", "bp", "bs")
 FUNC = dict(lp="lowpass", hp="highpass", bp="bandpass", bs="bandblock")
@@ -154,11 +187,13 @@ def design_line(kind, dt, fcs):
     return "flt.design %s %s %s" % (kind, fbits(dt), " ".join(fbits(v) for v in fcs))
 
 
-def compare_design(model_reply, rec, notes=None):
+def compare_design(model_reply, rec, notes=None, wn_tol=1e-14):
     """model reply `ok 5 lowpass filtfilt <wn…>` against the recorded summary; returns None if they agree.
     Compared: order, btype, digital design, normalised cut-offs, and that the coefficients are applied once by a
     forward-backward routine.  Which of filtfilt / sosfiltfilt is used, padding options and pre-processing of the signal do
-    not matter for the property (steady state away from the ends): differences there are only noted."""
+    not matter for the property (steady state away from the ends): differences there are only noted.
+    `wn_tol`: 1e-14 (same IEEE double operations); 2e-7 when dt or a cut-off is handed over as numpy float32 (numpy then
+    computes the normalised cut-off in single precision)."""
     tok = model_reply.split()
     if tok[0] != "ok":
         return "model: " + model_reply
@@ -174,7 +209,7 @@ def compare_design(model_reply, rec, notes=None):
         return "routine (not one forward-backward pass: %s)" % rec.get("routine")
     if rec["analog"]:
         return "analog"
-    if len(rec["wn"]) != len(m_wn) or any(abs(a - b) > 1e-14 * abs(b) for a, b in zip(rec["wn"], m_wn)):
+    if len(rec["wn"]) != len(m_wn) or any(abs(a - b) > wn_tol * abs(b) for a, b in zip(rec["wn"], m_wn)):
         return "Wn"
     if notes is not None:
         if rec.get("routine") != m_rt:
@@ -235,51 +270,132 @@ def call(fn, *a, **k):
 # ----------------------------------------------------------------------------------------------------------------------
 # signal level: one case = (kind, dt, fcs, f, A, ph, mean, n)
 # ----------------------------------------------------------------------------------------------------------------------
-def sig_clauses(case, want_rec=False):
-    """Evaluates the property's clauses on qats.signal for one case.
-    Returns (failures [(oracle, expected, observed)], measurement dict or None, recorded design or None)."""
-    import qats.signal as qs
-    kind, dt, fcs, f, A, ph, mean, n = (case[k] for k in ("kind", "dt", "fcs", "f", "A", "ph", "mean", "n"))
-    fn = getattr(qs, FUNC[kind])
-    t = np.arange(n) * dt
-    x = mean + A * np.sin(2 * np.pi * f * t + ph)
-    fails, rec = [], None
-    if want_rec:
-        with Recorder() as r:
-            y, err = call(fn, x, dt, *fcs)
-        rec = summarize(r.calls, x)
-    else:
-        y, err = call(fn, x, dt, *fcs)
-    if err is not None or np.shape(y) != np.shape(x) or not np.all(np.isfinite(y)):
-        fails.append((O_RETURNS, "finite array of the input's shape", err or "shape %s / non-finite" % (np.shape(y),)))
-        return fails, None, rec
-    g, m, res = fit(t, y, f, ph, A)
+PARAMS = dict(lp=("fc",), hp=("fc",), bp=("flow", "fupp"), bs=("flow", "fupp"))     # documented parameter names
+AGAIN = " [second call with the same array object]"
+
+
+def conv(v, how):
+    """the same number in another numeric type (the generators only ask for conversions that are exact)"""
+    if how == "int":
+        return int(v)
+    if how == "np.int64":
+        return np.int64(int(v))
+    if how == "np.float64":
+        return np.float64(v)
+    if how == "np.float32":
+        return np.float32(v)
+    return float(v)
+
+
+def spelled_signal(x, how):
+    """the same samples in another container / dtype / memory layout"""
+    if how == "list":
+        return x.tolist()
+    if how == "tuple":
+        return tuple(x.tolist())
+    if how == "float32":
+        return x.astype(np.float32)
+    if how == "int64":                                   # amplitude >= 2^30: rounding to integers changes the signal by < 1e-9
+        return np.rint(x).astype(np.int64)
+    if how == "strided":
+        buf = np.full(2 * len(x), -7.0)
+        buf[::2] = x
+        return buf[::2]
+    if how == "reversed":
+        return x[::-1].copy()[::-1]
+    if how == "readonly":
+        y = x.copy()
+        y.setflags(write=False)
+        return y
+    return x
+
+
+def signal_call(case, xs):
+    """(args, kwargs) of the call to qats.signal.<filter> in the case's spelling"""
+    sp = case.get("spell") or {}
+    kind = case["kind"]
+    dt = conv(case["dt"], sp.get("dt"))
+    fcs = [conv(c, sp.get("fc")) for c in case["fcs"]]
+    style = sp.get("call", "pos")
+    if style == "kw":
+        return (), dict(dict(zip(PARAMS[kind], fcs)), x=xs, dt=dt)
+    if style == "kw-cut":
+        return (xs, dt), dict(zip(PARAMS[kind], fcs))
+    if style == "order-pos":
+        return (xs, dt) + tuple(fcs) + (5,), {}
+    if style == "order-kw":
+        return (xs, dt) + tuple(fcs), dict(order=5)
+    if style == "order-np":
+        return (xs, dt) + tuple(fcs), dict(order=np.int64(5))
+    return (xs, dt) + tuple(fcs), {}
+
+
+def response_clauses(case, t, y, sfx=""):
+    """the steady-state clauses of the property for one filtered record; (failures, measurement)"""
+    kind, dt, fcs, f, A, ph, mean = (case[k] for k in ("kind", "dt", "fcs", "f", "A", "ph", "mean"))
+    fails = []
+    g, m, res = fit(t, np.asarray(y, dtype=float), f, ph, A)
     sc = A + abs(mean)
     G = ref_gain(kind, dt, fcs, f)
     G0 = 1.0 if kind in ("lp", "bs") else 0.0
     meas = dict(gain=[g.real, g.imag], mean=m, residual=res, ref=G)
-    if abs(g - G) * A > TOL * sc:
-        fails.append((O_REF, [G, 0.0], [g.real, g.imag]))
-    if any(abs(f - c) <= 1e-12 * c for c in fcs) and abs(g - 0.5) * A > TOL * sc:
-        fails.append((O_HALF, [0.5, 0.0], [g.real, g.imag]))
-    if res > 5 * TOL * sc:
-        fails.append((O_PURE, "residual <= %g" % (5 * TOL * sc), res))
-    if abs(m - mean * G0) > TOL * sc:
-        fails.append((O_MEAN, mean * G0, m))
+    if not abs(g - G) * A <= TOL * sc:
+        fails.append((O_REF + sfx, [G, 0.0], [g.real, g.imag]))
+    if any(abs(f - c) <= 1e-12 * c for c in fcs) and not abs(g - 0.5) * A <= TOL * sc:
+        fails.append((O_HALF + sfx, [0.5, 0.0], [g.real, g.imag]))
+    if not res <= 5 * TOL * sc:
+        fails.append((O_PURE + sfx, "residual <= %g" % (5 * TOL * sc), res))
+    if not abs(m - mean * G0) <= TOL * sc:
+        fails.append((O_MEAN + sfx, mean * G0, m))
     # pass / stop band with explicit rates (tan is convex on (0, pi/2): W(f/2)/W(f) <= 1/2, W(2f)/W(f) >= 2)
     if kind in ("lp", "hp"):
         fc = fcs[0]
         inside = (f <= 0.5 * fc) if kind == "lp" else (f >= 2.0 * fc)
         outside = (f >= 2.0 * fc) if kind == "lp" else (f <= 0.5 * fc)
         if inside and (1.0 - g.real) * A > (2.0 ** -10) * A + TOL * sc:
-            fails.append((O_BAND, ">= 1 - 2^-10", g.real))
+            fails.append((O_BAND + sfx, ">= 1 - 2^-10", g.real))
         if outside and abs(g) * A > (2.0 ** -10) * A + TOL * sc:
-            fails.append((O_BAND, "<= 2^-10", abs(g)))
+            fails.append((O_BAND + sfx, "<= 2^-10", abs(g)))
+    return fails, meas
+
+
+def sig_clauses(case, want_rec=False):
+    """Evaluates the property's clauses on qats.signal for one case (in the case's spelling of the arguments; with
+    `twice` the call is repeated with the same array object and both results are judged).
+    Returns (failures [(oracle, expected, observed)], measurement dict or None, recorded design or None)."""
+    import qats.signal as qs
+    kind, dt, fcs, f, A, ph, mean, n = (case[k] for k in ("kind", "dt", "fcs", "f", "A", "ph", "mean", "n"))
+    fn = getattr(qs, FUNC[kind])
+    t = np.arange(n) * dt
+    x = mean + A * np.sin(2 * np.pi * f * t + ph)
+    xs = spelled_signal(x, (case.get("spell") or {}).get("x"))
+    args, kwargs = signal_call(case, xs)
+    fails, rec, meas = [], None, None
+    rounds = 2 if case.get("twice") else 1
+    for r_ in range(rounds):
+        sfx = AGAIN if r_ else ""
+        if want_rec and r_ == rounds - 1:
+            with Recorder() as r:
+                y, err = call(fn, *args, **kwargs)
+            rec = summarize(r.calls, x if xs is x else None)
+        else:
+            y, err = call(fn, *args, **kwargs)
+        if err is None:
+            try:
+                y = np.asarray(y, dtype=float)
+            except Exception as e:
+                err = "result is not an array of numbers: %r" % (e,)
+        if err is not None or np.shape(y) != np.shape(x) or not np.all(np.isfinite(y)):
+            fails.append((O_RETURNS + sfx, "finite array of the input's shape", err or "shape %s / non-finite" % (np.shape(y),)))
+            return fails, None, rec
+        fl, meas = response_clauses(case, t, y, sfx)
+        fails += fl
     return fails, meas, rec
 
 
 def extra_clauses(case, rng_vals):
-    """linearity, constant signal, complementary pair: evaluated on a two-component signal"""
+    """linearity, constant signal, complementary pair: evaluated on a two-component signal.
+    Returns (failures, probe): probe = samples of F(a x + b cos(2 pi f2 t + ph2)) at a few central times (for the model's `lin`)"""
     import qats.signal as qs
     kind, dt, fcs, f, A, ph, mean, n = (case[k] for k in ("kind", "dt", "fcs", "f", "A", "ph", "mean", "n"))
     a, b, f2, ph2 = rng_vals
@@ -292,7 +408,7 @@ def extra_clauses(case, rng_vals):
     fy, e2 = call(fn, y, dt, *fcs)
     fz, e3 = call(fn, a * x + b * y, dt, *fcs)
     if e1 or e2 or e3:
-        return [(O_RETURNS, "array", e1 or e2 or e3)]
+        return [(O_RETURNS, "array", e1 or e2 or e3)], None
     sc = (abs(a) * (A + abs(mean)) + abs(b) * 1.25)
     d = float(np.max(np.abs(fz - (a * fx + b * fy))))
     # rounding: second-order sections ~1e-12; (b, a) form of order 5 loses ~3e-18 / Wn^5 (measured), mirrored at Nyquist
@@ -303,7 +419,7 @@ def extra_clauses(case, rng_vals):
     const = np.full(n, mean)
     fc_, e4 = call(fn, const, dt, *fcs)
     if e4:
-        return fails + [(O_RETURNS, "array", e4)]
+        return fails + [(O_RETURNS, "array", e4)], None
     lo, hi = int(0.2 * n), int(0.8 * n)
     G0 = 1.0 if kind in ("lp", "bs") else 0.0
     dm = float(np.max(np.abs(fc_[lo:hi] - mean * G0)))
@@ -314,20 +430,27 @@ def extra_clauses(case, rng_vals):
     p, e5 = call(fn, z, dt, *fcs)
     q, e6 = call(getattr(qs, FUNC[other]), z, dt, *fcs)
     if e5 or e6:
-        return fails + [(O_RETURNS, "array", e5 or e6)]
+        return fails + [(O_RETURNS, "array", e5 or e6)], None
     ds = float(np.max(np.abs((p + q - z)[lo:hi])))
     if ds > TOL * sc:
         fails.append((O_SUM, "max |F(z) + F'(z) - z| <= %g on the central 60 %%" % (TOL * sc), ds))
-    return fails
+    idx = [lo + ((hi - lo) * j) // 7 for j in range(1, 7)]
+    probe = dict(idx=idx, t=[float(t[i]) for i in idx], y=[float(p[i]) for i in idx], scale=sc)
+    return fails, probe
 
 
 # ----------------------------------------------------------------------------------------------------------------------
 # TimeSeries level
 # ----------------------------------------------------------------------------------------------------------------------
+NAME = "c12"
+VIAS = ("get", "filter", "modify", "copy", "geta", "getda", "trace")
+
+
 def ts_build(case):
-    """stored series and the options of the variant; the sinusoid is sampled exactly at the stored times"""
+    """stored series and the options of the variant (in the case's spelling); the sinusoid is sampled exactly at the stored times"""
     from qats import TimeSeries
     kind, dt, f, A, ph, mean, n, var, k, t0 = (case[key] for key in ("kind", "dt", "f", "A", "ph", "mean", "n", "variant", "k", "t0"))
+    sp = case.get("spell") or {}
     if var == "irregular":
         jit = np.array(case["jitter"])
         idx = np.arange(n, dtype=float)
@@ -336,51 +459,142 @@ def ts_build(case):
     else:
         t = t0 + np.arange(n) * dt
     x = mean + A * np.sin(2 * np.pi * f * t + ph)
-    ts = TimeSeries("c12", t, x)
+    stored = sp.get("stored")
+    if stored == "t-int":                                # integral dt and t0: the time array handed over as integers
+        ts = TimeSeries(NAME, int(t0) + np.arange(n) * int(dt), x)
+    elif stored == "x-float32":
+        ts = TimeSeries(NAME, t, x.astype(np.float32))
+    elif stored == "x-int64":                            # amplitude >= 2^30
+        ts = TimeSeries(NAME, t, np.rint(x).astype(np.int64))
+    elif stored == "readonly":                           # the caller's arrays are read-only
+        tr, xr = t.copy(), x.copy()
+        tr.setflags(write=False)
+        xr.setflags(write=False)
+        ts = TimeSeries(NAME, tr, xr)
+    else:
+        ts = TimeSeries(NAME, t, x)
     kw = {}
+    seq = list if sp.get("twin") == "list" else tuple
     if var in ("window", "window+step"):
         i0 = int(0.1 * n)
         i1 = i0 + ((int(0.9 * n) - i0) // k) * k        # retained span divisible by k: the new grid hits stored samples
-        kw["twin"] = (float(t[i0]), float(t[i1]))
+        kw["twin"] = seq((float(t[i0]), float(t[i1])))
+    elif sp.get("noop_twin") == "exact":                # options that are given but change nothing
+        kw["twin"] = seq((float(t[0]), float(t[-1])))
+    elif sp.get("noop_twin") == "wide":
+        kw["twin"] = seq((float(t[0]) - 10.0 * dt, 1e12))
     if var in ("step", "window+step"):
-        kw["resample"] = float(k * dt)
+        kw["resample"] = conv(k * dt, sp.get("step"))
     if var == "array":
-        kw["resample"] = t[::k].copy()
+        kw["resample"] = t[::k].copy() if sp.get("array") != "list" else t[::k].tolist()
     if case.get("taperfrac") is not None:
         kw["taperfrac"] = case["taperfrac"]
+    elif "noop_taper" in sp:
+        kw["taperfrac"] = sp["noop_taper"]              # 0, 0.0 or 1.0: no tapering
+    if sp.get("noop_smooth"):
+        kw["window_len"] = 1
     return ts, kw
 
 
-def ts_clauses(case, want_rec=False):
-    """clauses through TimeSeries.get / TimeSeries.filter; returns (failures, measurement, recorded design, processed dt)"""
+def ts_fargs(case):
+    sp = case.get("spell") or {}
+    fa = [case["kind"]] + [conv(c, sp.get("fc")) for c in case["fcs"]]
+    return fa if sp.get("fargs") == "list" else tuple(fa)
+
+
+def ts_route(ts, via, fargs, kw):
+    """the filtered (time, data) through one of the public routes that reach the filters"""
+    if via == "get":
+        return ts.get(filterargs=fargs, **kw)
+    if via == "filter":
+        extra = {k: v for k, v in kw.items() if k not in ("twin", "taperfrac")}
+        if extra:
+            raise RuntimeError("harness: filter() has no option %s" % sorted(extra))
+        freq = fargs[1] if len(fargs) == 2 else (tuple(fargs[1:]) if isinstance(fargs, tuple) else list(fargs[1:]))
+        return ts.filter(fargs[0], freq, **kw)
+    if via == "modify":
+        ts.modify(filterargs=fargs, **kw)
+        return ts.t, ts.x
+    if via == "copy":
+        return ts.copy().get(filterargs=fargs, **kw)
+    if via in ("geta", "getda"):
+        from qats import TsDB
+        db = TsDB()
+        db.add(ts)
+        if via == "geta":
+            return db.geta(name=NAME, filterargs=fargs, **kw)
+        return db.getda(names=NAME, filterargs=fargs, **kw)[NAME]
+    if via == "trace":
+        from qats.app.funcs import calculate_trace
+        extra = {k: v for k, v in kw.items() if k != "twin"}
+        if extra:
+            raise RuntimeError("harness: calculate_trace has no option %s" % sorted(extra))
+        r = calculate_trace({NAME: ts}, kw.get("twin"), fargs)[NAME]
+        return r["t"], r["x"]
+    raise RuntimeError("harness: unknown route %r" % (via,))
+
+
+def ts_response(case, t2, y, sfx=""):
+    """clauses on a (time, data) pair returned by a TimeSeries-level call; (failures, measurement, dt of the returned time array)"""
     kind, fcs, f, A, ph, mean = (case[k] for k in ("kind", "fcs", "f", "A", "ph", "mean"))
-    ts, kw = ts_build(case)
-    fargs = (kind,) + tuple(fcs)
+    try:
+        t2, y = np.asarray(t2, dtype=float), np.asarray(y, dtype=float)
+    except Exception as e:
+        return [(O_RETURNS + sfx, "time and data arrays", "not arrays of numbers: %r" % (e,))], None, None
+    if t2.ndim != 1 or t2.shape != y.shape or len(t2) < 2 or not np.all(np.isfinite(y)):
+        return [(O_RETURNS + sfx, "time and data of equal length", "%s / %s%s" % (t2.shape, y.shape, "" if np.all(np.isfinite(y)) else " non-finite"))], None, None
+    dt2 = float(t2[1] - t2[0])
+    if not dt2 > 0:
+        return [(O_RETURNS + sfx, "increasing time array", "first step %r" % dt2)], None, None
+    g, m, res = fit(t2, y, f, ph, A)
+    sc = A + abs(mean)
+    irregular = case.get("variant") == "irregular"
+    tol = TOL_IRR if irregular else TOL
+    fails = []
+    G0 = 1.0 if kind in ("lp", "bs") else 0.0
+    if not all(0 < c < 0.5 / dt2 for c in fcs):
+        # the harness only asks for cut-offs below the Nyquist frequency of the series the filter must see
+        return [(O_TSREF + sfx, "time step %g of the processed series" % (case["dt"] * case.get("k", 1)), "returned time step %g" % dt2)], None, dt2
+    G = ref_gain(kind, dt2, fcs, f)
+    meas = dict(gain=[g.real, g.imag], mean=m, residual=res, ref=G, dt_returned=dt2, n_returned=len(t2))
+    if not abs(g - G) * A <= tol * sc:
+        fails.append((O_TSREF + sfx, [G, 0.0], [g.real, g.imag]))
+    if any(abs(f - c) <= 1e-12 * c for c in fcs) and not abs(g - 0.5) * A <= tol * sc:
+        fails.append((O_HALF + sfx, [0.5, 0.0], [g.real, g.imag]))
+    if not irregular and not res <= 5 * tol * sc:
+        fails.append((O_PURE + sfx, "residual <= %g" % (5 * tol * sc), res))
+    if not abs(m - mean * G0) <= tol * sc:
+        fails.append((O_MEAN + sfx, mean * G0, m))
+    return fails, meas, dt2
+
+
+def ts_clauses(case, want_rec=False):
+    """clauses through TimeSeries.get / TimeSeries.filter (or the route named by `via`); returns
+    (failures, measurement, recorded design, processed dt)"""
+    kind, fcs, f, A, ph, mean = (case[k] for k in ("kind", "fcs", "f", "A", "ph", "mean"))
+    via = case.get("via", "get")
+    ts, err0 = call(lambda: ts_build(case))
+    if err0 is not None:
+        return [(O_RETURNS, "a TimeSeries", "constructing the series: " + err0)], None, None, None
+    ts, kw = ts
+    fargs = ts_fargs(case)
     fails, rec = [], None
     if want_rec:
         with Recorder() as r:
-            out, err = call(ts.get, filterargs=fargs, **kw)
+            out, err = call(ts_route, ts, via, fargs, kw)
         rec = summarize(r.calls, None)
     else:
-        out, err = call(ts.get, filterargs=fargs, **kw)
+        out, err = call(ts_route, ts, via, fargs, kw)
+    if err is None and not (isinstance(out, (tuple, list)) and len(out) == 2):
+        err = "returned %s instead of (time, data)" % type(out).__name__
     if err is not None:
         return [(O_RETURNS, "(time, data)", err)], None, rec, None
     t2, y = out
-    if len(t2) != len(y) or len(t2) < 2 or not np.all(np.isfinite(y)):
-        return [(O_RETURNS, "time and data of equal length", "%d / %d" % (len(t2), len(y)))], None, rec, None
-    dt2 = float(t2[1] - t2[0])
-    g, m, res = fit(np.asarray(t2, dtype=float), np.asarray(y, dtype=float), f, ph, A)
-    sc = A + abs(mean)
-    tol = TOL_IRR if case["variant"] == "irregular" else TOL
-    G = ref_gain(kind, dt2, fcs, f)
-    G0 = 1.0 if kind in ("lp", "bs") else 0.0
-    meas = dict(gain=[g.real, g.imag], mean=m, residual=res, ref=G, dt_returned=dt2, n_returned=len(t2))
-    if abs(g - G) * A > tol * sc:
-        fails.append((O_TSREF, [G, 0.0], [g.real, g.imag]))
-    if abs(m - mean * G0) > tol * sc:
-        fails.append((O_MEAN, mean * G0, m))
+    fails, meas, dt2 = ts_response(case, t2, y)
+    if meas is None:
+        return fails, None, rec, None
     # filter() delegates
-    if "resample" not in kw:
+    if "resample" not in kw and "window_len" not in kw and via not in ("modify", "filter"):
         freq = fcs[0] if len(fcs) == 1 else tuple(fcs)
         o2, err2 = call(ts.filter, kind, freq, twin=kw.get("twin"), taperfrac=kw.get("taperfrac"))
         if err2 is not None:
@@ -458,9 +672,106 @@ def corner_cases():
     return out
 
 
-def gen_ts_case(rng, lo, variant):
+def f32(v):
+    return float(np.float32(v))
+
+
+def gen_boundary_case(rng, lo, what=None, kind=None, p2=None):
+    """signal-level cases at the rim of the quantifier: extreme sampling intervals, cut-offs up to 0.99 Nyquist, test
+    frequencies next to 0 and to Nyquist, other units (x 2^p), large mean levels"""
+    what = what or rng.choice(["dt", "dt", "cut-high", "f-low", "f-high", "pow2", "pow2", "offset"])
+    kind = kind or rng.choice(KINDS)
+    dt = pick_dt(rng)
+    if what == "dt":
+        dt = rng.choice([10 ** rng.uniform(-6, -3), 10 ** rng.uniform(1, 3.5), 2.0 ** -20, 2.0 ** 10, 1e-6, 3600.0, 1.0 / 3.0])
+    nyq = 0.5 / dt
+    fcs = pick_cutoffs(rng, kind, nyq, lo)
+    if what == "cut-high":
+        top = rng.uniform(0.975, 0.99)
+        fcs = [nyq * top] if kind in ("lp", "hp") else [nyq * top * rng.uniform(0.3, 0.95), nyq * top]
+    f = pick_f(rng, fcs, nyq)
+    if what == "f-low":
+        f = nyq * rng.uniform(0.002, 0.01)
+    elif what == "f-high":
+        f = nyq * rng.uniform(0.985, 0.998)
+    elif what == "cut-high" and rng.random() < 0.5:
+        f = fcs[-1]
+    A, mean = 10 ** rng.uniform(-1, 1), rng.choice([0.0, rng.uniform(-5, 5)])
+    case = dict(level="signal", kind=kind, dt=dt, fcs=fcs, f=f, ph=rng.uniform(-math.pi, math.pi), boundary=what)
+    if what == "pow2":
+        p2 = p2 if p2 is not None else rng.choice([-200, -100, -40, 40, 100, 200])
+        A, mean = A * 2.0 ** p2, mean * 2.0 ** p2
+        case["pow2"] = p2
+    elif what == "offset":
+        mean = rng.choice([-1.0, 1.0]) * A * 10 ** rng.uniform(2, 3)
+    n = record_length(dt, fcs)
+    n = int(min(80000, max(n, math.ceil(12.0 / (f * dt) / 0.6))))   # at least 12 periods in the fitted part
+    case.update(A=A, mean=mean, n=n)
+    return case
+
+
+def gen_spelled_signal_case(rng, lo):
+    """the same request in another spelling: container / dtype / layout of the signal, numeric type of dt and of the cut-offs,
+    keyword call, explicit default order; half of the cases are issued twice with the same array object"""
+    kind = rng.choice(KINDS)
+    sp = {}
+    u = rng.random()
+    if u < 0.3:                                          # integral cut-offs (Nyquist must be above them)
+        sp["fc"] = rng.choice(["int", "np.int64"])
+        dt = rng.choice([0.01, 0.02, 0.05, 0.1, 0.125])
+        nyq = 0.5 / dt
+        top = int(0.9 * nyq)
+        if kind in ("lp", "hp"):
+            fcs = [float(rng.randint(1, top))]
+        else:
+            a_ = rng.randint(1, top - 1)
+            fcs = [float(a_), float(rng.randint(a_ + 1, top))]
+    elif u < 0.5:                                        # integral sampling interval
+        sp["dt"] = rng.choice(["int", "np.int64"])
+        dt = float(rng.choice([1, 2, 4, 10]))
+        fcs = pick_cutoffs(rng, kind, 0.5 / dt, lo)
+    else:
+        dt = rng.choice([1.0, 0.5, 0.25, 0.125, 2.0 ** -6, 2.0, 0.1, 0.05])
+        sp["dt"] = rng.choice(["float", "np.float64", "np.float32"])
+        if sp["dt"] == "np.float32":
+            dt = f32(dt)
+        fcs = pick_cutoffs(rng, kind, 0.5 / dt, lo)
+        sp["fc"] = rng.choice(["float", "np.float64", "np.float32"])
+        if sp["fc"] == "np.float32":
+            fcs = [f32(c) for c in fcs]
+    nyq = 0.5 / dt
+    f = pick_f(rng, fcs, nyq)
+    sp["x"] = rng.choice(["ndarray", "list", "tuple", "float32", "int64", "strided", "reversed", "readonly", "readonly"])
+    sp["call"] = rng.choice(["pos", "kw", "kw-cut", "order-pos", "order-kw", "order-np"])
+    A, mean = 10 ** rng.uniform(-1, 1), rng.choice([0.0, rng.uniform(-5, 5)])
+    if sp["x"] == "int64":
+        A, mean = A * 2.0 ** 32, float(round(mean * 2.0 ** 32))
+    return dict(level="signal", kind=kind, dt=dt, fcs=fcs, f=f, A=A, ph=rng.uniform(-math.pi, math.pi), mean=mean,
+                n=record_length(dt, fcs), spell=sp, twice=rng.random() < 0.5)
+
+
+def gen_ts_case(rng, lo, variant, spelled=False):
     kind = rng.choice(KINDS)
     dt = pick_dt(rng)
+    sp = {}
+    if spelled:
+        sp["fc"] = rng.choice(["float", "float", "np.float64", "np.float32", "int", "np.int64"])
+        sp["stored"] = rng.choice(["ndarray", "ndarray", "t-int", "x-float32", "x-int64", "readonly"])
+        if variant == "irregular":
+            raise ValueError("harness: no spelled irregular cases")
+        if sp["stored"] == "t-int":
+            dt = float(rng.choice([1, 2, 5]))
+            if sp["fc"] in ("int", "np.int64"):
+                sp["fc"] = "np.float64"
+        elif sp["fc"] in ("int", "np.int64"):
+            dt = rng.choice([0.01, 0.02, 0.05, 0.0625])
+        elif variant in ("step", "window+step"):
+            sp["step"] = rng.choice(["float", "np.float64", "np.float32"])
+            if sp["step"] == "np.float32":
+                dt = rng.choice([1.0, 0.5, 0.25, 0.125, 2.0 ** -6, 2.0])     # k*dt must be a float32
+        elif rng.random() < 0.25:                        # extreme sampling intervals
+            dt = rng.choice([10 ** rng.uniform(-6, -3), 10 ** rng.uniform(1, 3.5), 2.0 ** -20, 3600.0, 1e-6])
+            sp["dt"] = "extreme"
     k = rng.choice([2, 3]) if variant in ("step", "window+step", "array") else 1
     dt2 = k * dt                                        # step of the returned time array
     nyq2 = 0.5 / dt2
@@ -475,18 +786,461 @@ def gen_ts_case(rng, lo, variant):
         fcs = [max(c, 0.0085 * nyq2) for c in fcs]
     else:
         fcs = pick_cutoffs(rng, kind, nyq2, lo)
+        if sp.get("fc") in ("int", "np.int64"):
+            top = int(0.9 * nyq2)
+            if kind in ("lp", "hp"):
+                fcs = [float(rng.randint(1, top))]
+            else:
+                a_ = rng.randint(1, top - 1)
+                fcs = [float(a_), float(rng.randint(a_ + 1, top))]
+        elif sp.get("fc") == "np.float32":
+            fcs = [f32(c) for c in fcs]
         f = pick_f(rng, fcs, nyq2)
     n2 = record_length(dt2, fcs)                        # samples the filter must see
     if variant in ("window", "window+step"):
         n2 = int(n2 / 0.8) + 2
     n = (n2 - 1) * k + 1                                # stored samples; (n - 1) divisible by k: grids coincide
-    case = dict(level="ts", variant=variant, kind=kind, dt=dt, k=k, fcs=fcs, f=f, A=10 ** rng.uniform(-1, 1),
-                ph=rng.uniform(-math.pi, math.pi), mean=rng.choice([0.0, rng.uniform(-5, 5)]), n=n,
-                t0=rng.choice([0.0, 0.0, round(rng.uniform(-50, 500), 1)]),
+    t0 = rng.choice([0.0, 0.0, round(rng.uniform(-50, 500), 1)])
+    A, mean = 10 ** rng.uniform(-1, 1), rng.choice([0.0, rng.uniform(-5, 5)])
+    case = dict(level="ts", variant=variant, kind=kind, dt=dt, k=k, fcs=fcs, f=f, A=A,
+                ph=rng.uniform(-math.pi, math.pi), mean=mean, n=n, t0=t0,
                 taperfrac=(rng.choice([0.05, 0.1]) if variant == "taper" else None))
+    if spelled:
+        if sp["stored"] == "t-int":
+            case["t0"] = float(rng.choice([0, 0, -40, 1000]))
+        elif rng.random() < 0.25:
+            case["t0"] = rng.choice([2.0 ** 20, -2.0 ** 16, 1.0e6]) if dt >= 1e-2 else 2.0 ** 10   # large time offsets
+        if sp["stored"] == "x-int64":
+            case["A"], case["mean"] = A * 2.0 ** 32, float(round(mean * 2.0 ** 32))
+        sp["fargs"] = rng.choice(["tuple", "list"])
+        sp["twin"] = rng.choice(["tuple", "list"])
+        if variant == "array":
+            sp["array"] = rng.choice(["ndarray", "list"])
+        if variant not in ("window", "window+step", "array") and rng.random() < 0.5:
+            sp["noop_twin"] = rng.choice(["exact", "wide"])
+        if variant != "taper" and rng.random() < 0.5:
+            sp["noop_taper"] = rng.choice([0, 0.0, 1.0])
+        if rng.random() < 0.2:
+            sp["noop_smooth"] = True
+        has_twin = variant == "window" or "noop_twin" in sp
+        routes = ["get", "modify", "copy", "geta", "getda"]
+        if variant in ("plain", "window", "taper") and not sp.get("noop_smooth"):
+            routes.append("filter")
+            if variant != "taper" and "noop_taper" not in sp:
+                routes += ["trace", "trace"]
+        case["via"] = rng.choice(routes)
+        case["spell"] = sp
     if variant == "irregular":
         case["jitter"] = [rng.uniform(-0.2, 0.2) for _ in range(n - 2)]
     return case
+
+
+# ----------------------------------------------------------------------------------------------------------------------
+# histories: several requests on one TimeSeries object / several calls in one process that share arguments
+# ----------------------------------------------------------------------------------------------------------------------
+def gen_hist_case(rng):
+    """one series, 6-9 steps: filtered retrievals (type / cut-offs / resampling step vary, often only one of them w.r.t. the
+    previous step), rejected requests, the data replaced or scaled in place, a second object built from the same arrays"""
+    dt = rng.choice([0.05, 0.1, 0.2, 0.5, 1.0, 10 ** rng.uniform(-2, 0)])
+    nyq3 = 0.5 / (3 * dt)                               # Nyquist of the coarsest grid (resampling to 3 dt)
+    f = nyq3 * rng.uniform(0.4, 0.6)
+    c1, c2 = f * rng.uniform(0.55, 0.75), f * rng.uniform(1.3, 1.5)       # band widths >= 0.1 of the coarsest Nyquist frequency
+    pool1 = [[c1], [c2], [f]]
+    pool2 = [[c1, c2], [c1, f], [f, c2]]
+    steps = []
+    prev = None
+    for _ in range(rng.randint(6, 9)):
+        u = rng.random()
+        if u < 0.62 or prev is None:
+            if prev is not None and rng.random() < 0.6:  # change exactly one thing
+                st = dict(prev)
+                w = rng.choice(["k", "k", "kind", "fcs"])
+                if w == "k":
+                    st["k"] = rng.choice([k for k in (1, 2, 3) if k != prev["k"]])
+                elif w == "kind":
+                    st["kind"] = dict(lp="hp", hp="lp", bp="bs", bs="bp")[prev["kind"]]
+                else:
+                    st["fcs"] = rng.choice([c for c in (pool1 if len(prev["fcs"]) == 1 else pool2) if c != prev["fcs"]])
+            else:
+                kind = rng.choice(KINDS)
+                st = dict(op="get", kind=kind, fcs=rng.choice(pool1 if kind in ("lp", "hp") else pool2), k=rng.choice([1, 1, 2, 3]))
+            st["via"] = rng.choice(["get", "get", "filter", "copy", "geta"]) if st["k"] == 1 else rng.choice(["get", "get", "copy", "geta"])
+            st["window"] = rng.random() < 0.3
+            prev = {k: st[k] for k in ("op", "kind", "fcs", "k")}
+            steps.append(st)
+        elif u < 0.74:
+            steps.append(dict(op="bad", what=rng.choice(["above-nyquist", "arity", "type", "array+twin", "outside"])))
+        elif u < 0.84:
+            steps.append(dict(op="set_x", A=10 ** rng.uniform(-1, 1), ph=rng.uniform(-math.pi, math.pi), mean=rng.choice([0.0, rng.uniform(-5, 5)])))
+        elif u < 0.92:
+            steps.append(dict(op="scale_x", p=rng.choice([-3, -1, 1, 2])))
+        else:
+            kind = rng.choice(KINDS)
+            steps.append(dict(op="second_object", kind=kind, fcs=rng.choice(pool1 if kind in ("lp", "hp") else pool2)))
+    return dict(level="hist", dt=dt, f=f, A=10 ** rng.uniform(-1, 1), ph=rng.uniform(-math.pi, math.pi),
+                mean=rng.choice([0.0, rng.uniform(-5, 5)]), n=6 * ((max(record_length(3 * dt, c) for c in pool1 + pool2) + 201) // 2) + 1, t0=rng.choice([0.0, round(rng.uniform(-50, 500), 1)]), steps=steps)
+
+
+def hist_clauses(case):
+    """runs the history; the response clauses are evaluated on every filtered retrieval.  Returns (failures, n evaluated, worst)"""
+    from qats import TimeSeries
+    dt, f, n, t0 = case["dt"], case["f"], case["n"], case["t0"]
+    cur = dict(A=case["A"], ph=case["ph"], mean=case["mean"])
+    t_src = t0 + np.arange(n) * dt
+    x_src = cur["mean"] + cur["A"] * np.sin(2 * np.pi * f * t_src + cur["ph"])
+    src0 = dict(cur)
+    ts, err = call(TimeSeries, NAME, t_src, x_src)
+    if err is not None:
+        return [(O_RETURNS, "a TimeSeries", "constructing the series: " + err)], 0, 0.0
+    fails, done, worst = [], 0, 0.0
+
+    def judge(i, st, obj, who, via):
+        nonlocal done, worst
+        k = st.get("k", 1)
+        kw = {}
+        if st.get("window"):
+            i0 = 300
+            i1 = i0 + ((n - 300 - i0) // 6) * 6
+            kw["twin"] = (float(t_src[i0]), float(t_src[i1]))
+        if k > 1:
+            kw["resample"] = float(k * dt)
+        sfx = " [history step %d: %s %s %s via %s%s%s]" % (i + 1, st["kind"], ["%.6g" % c for c in st["fcs"]], "resample=%d*dt" % k if k > 1 else "stored step",
+                                                        via, ", window" if st.get("window") else "", who)
+        out, e = call(ts_route, obj, via, (st["kind"],) + tuple(st["fcs"]), kw)
+        if e is None and not (isinstance(out, (tuple, list)) and len(out) == 2):
+            e = "returned %s instead of (time, data)" % type(out).__name__
+        if e is not None:
+            fails.append((O_RETURNS + sfx, "(time, data)", e))
+            return
+        c = dict(kind=st["kind"], fcs=st["fcs"], f=f, dt=dt, k=k, variant="hist", **who_state[who])
+        fl, meas, _ = ts_response(c, out[0], out[1], sfx)
+        fails.extend(fl)
+        done += 1
+        if meas is not None:
+            G0 = 1.0 if st["kind"] in ("lp", "bs") else 0.0
+            worst = max(worst, max(abs(complex(*meas["gain"]) - meas["ref"]) * c["A"], abs(meas["mean"] - c["mean"] * G0)) / (c["A"] + abs(c["mean"])))
+
+    who_state = {"": cur, ", second object from the same arrays": src0}
+    for i, st in enumerate(case["steps"]):
+        op = st["op"]
+        if op == "get":
+            judge(i, st, ts, "", st["via"])
+        elif op == "bad":                               # a request that cannot be served; what it does is not judged here
+            w = st["what"]
+            if w == "above-nyquist":
+                call(ts.get, filterargs=("lp", 0.6 / dt))
+            elif w == "arity":
+                call(ts.filter, "bp", 0.1 * 0.5 / dt)
+                call(ts.get, filterargs=("lp",))
+            elif w == "type":
+                call(ts.get, filterargs=("xx", 0.1 * 0.5 / dt))
+            elif w == "array+twin":
+                call(ts.get, filterargs=("hp", 0.1 * 0.5 / dt), resample=t_src[::2].copy(), twin=(float(t_src[0]), float(t_src[-1])))
+            else:
+                call(ts.get, filterargs=("hp", 0.1 * 0.5 / dt), resample=np.array([t_src[0] - 5 * dt, t_src[0], t_src[1]]))
+        elif op == "set_x":
+            cur.update(A=st["A"], ph=st["ph"], mean=st["mean"])
+            _, e = call(setattr, ts, "x", cur["mean"] + cur["A"] * np.sin(2 * np.pi * f * t_src + cur["ph"]))
+            if e is not None:
+                fails.append((O_RETURNS + " [history step %d: data replaced]" % (i + 1), "assignment", e))
+        elif op == "scale_x":
+            try:
+                ts.x *= 2.0 ** st["p"]
+                cur.update(A=cur["A"] * 2.0 ** st["p"], mean=cur["mean"] * 2.0 ** st["p"])
+            except Exception as e:
+                fails.append((O_RETURNS + " [history step %d: data scaled in place]" % (i + 1), "in-place scaling of ts.x", repr(e)))
+        elif op == "second_object":
+            ts2, e = call(TimeSeries, NAME + "b", t_src, x_src)
+            if e is not None:
+                fails.append((O_RETURNS, "a TimeSeries", "constructing a second series from the same arrays: " + e))
+            else:
+                judge(i, st, ts2, ", second object from the same arrays", "get")
+    return fails, done, worst
+
+
+def gen_seq_case(rng):
+    """6-10 calls of qats.signal filters in one process; consecutive calls share the cut-off(s) and differ in the sampling
+    interval or in the filter type (state carried between calls would show)"""
+    dts = rng.sample([0.05, 0.1, 0.125, 0.2, 0.25, 0.5], 3)
+    fmax = 0.4 * 0.5 / max(dts)
+    c1, c2 = fmax * rng.uniform(0.5, 0.65), fmax * rng.uniform(0.75, 1.0)
+    if rng.random() < 0.3 and max(dts) <= 0.2:
+        c1, c2 = 1.0, 2.0 if max(dts) <= 0.125 else 1.5
+    steps = []
+    kind = rng.choice(KINDS)
+    fcs = [c1] if kind in ("lp", "hp") else [c1, c2]
+    dt = rng.choice(dts)
+    for _ in range(rng.randint(6, 10)):
+        w = rng.choice(["dt", "dt", "kind", "cut"])
+        if w == "dt":
+            dt = rng.choice([d for d in dts if d != dt])
+        elif w == "kind":
+            kind = rng.choice([k for k in KINDS if k != kind])
+            fcs = fcs[:1] if kind in ("lp", "hp") else ([c1, c2] if len(fcs) == 1 else fcs)
+        else:
+            fcs = [rng.choice([c1, c2])] if kind in ("lp", "hp") else [c1, c2]
+        f = rng.choice(fcs) if rng.random() < 0.6 else rng.choice(fcs) * 10 ** rng.uniform(-0.15, 0.15)
+        steps.append(dict(kind=kind, dt=dt, fcs=list(fcs), f=f, ints=(rng.random() < 0.3 and all(float(c).is_integer() for c in fcs))))
+    return dict(level="seq", steps=steps, A=10 ** rng.uniform(-1, 1), ph=rng.uniform(-math.pi, math.pi), mean=rng.choice([0.0, rng.uniform(-5, 5)]))
+
+
+def seq_clauses(case):
+    fails, worst = [], 0.0
+    for i, st in enumerate(case["steps"]):
+        c = dict(level="signal", kind=st["kind"], dt=st["dt"], fcs=st["fcs"], f=st["f"], A=case["A"], ph=case["ph"], mean=case["mean"],
+                 n=record_length(st["dt"], st["fcs"]))
+        if st.get("ints"):
+            c["spell"] = dict(fc="int")
+        fl, meas, _ = sig_clauses(c)
+        sfx = " [call %d of a sequence in one process: %s dt=%g cut-offs %s]" % (i + 1, st["kind"], st["dt"], st["fcs"])
+        fails += [(o + sfx, e, ob) for o, e, ob in fl]
+        if meas is not None:
+            worst = max(worst, abs(complex(*meas["gain"]) - meas["ref"]) * c["A"] / (c["A"] + abs(c["mean"])))
+    return fails, worst
+
+
+# ----------------------------------------------------------------------------------------------------------------------
+# exact tie of the model's tsGet / tsFilter: tag functions in place of scipy's routines and of the taper
+# ----------------------------------------------------------------------------------------------------------------------
+KCODE = dict(lowpass=1.0, highpass=2.0, bandpass=3.0, bandstop=4.0)
+
+
+class Token:
+    """what the tagged `butter` returns: the design, to be written out by the tagged forward-backward routine"""
+    def __init__(self, enc):
+        self.enc = enc
+
+
+class TagScipy:
+    """butter / filtfilt / sosfiltfilt as seen by qats.signal and taper as seen by qats.ts replaced by tag functions:
+    `butter` returns the design as a token, the routines return `[order, code(btype), Wn…] ++ x`, taper returns `x + 1`"""
+
+    def __enter__(self):
+        import qats.signal as qs
+        import qats.ts as qt
+        import scipy.signal as ss
+        self.qs, self.qt = qs, qt
+        self.saved = {k: getattr(qs, k, None) for k in Recorder.NAMES}
+        self.saved_taper = getattr(qt, "taper", None)
+        sig = inspect.signature(ss.butter)
+
+        def butter(*a, **k):
+            ba = sig.bind(*a, **k)
+            ba.apply_defaults()
+            b = ba.arguments
+            wn = [float(v) for v in np.atleast_1d(b["Wn"])]
+            if b.get("fs") is not None:
+                wn = [2.0 * w / float(b["fs"]) for w in wn]
+            if b["analog"]:
+                raise ValueError("tag: analog design")
+            tok = Token([float(int(b["N"])), KCODE[BT_NORM.get(str(b["btype"]).lower(), str(b["btype"]))]] + wn)
+            out = b.get("output", "ba")
+            return tok if out == "sos" else ((tok, tok) if out == "ba" else (tok, tok, tok))
+
+        def filtfilt(b, a, x, *r, **k):
+            if not isinstance(b, Token):
+                raise TypeError("tag: coefficients do not come from butter")
+            return np.concatenate([np.array(b.enc), np.asarray(x, dtype=float)])
+
+        def sosfiltfilt(sos, x, *r, **k):
+            if not isinstance(sos, Token):
+                raise TypeError("tag: coefficients do not come from butter")
+            return np.concatenate([np.array(sos.enc), np.asarray(x, dtype=float)])
+
+        def taper(x, *a, **k):
+            return np.asarray(x, dtype=float) + 1.0, 1.0
+        for name, fn in (("butter", butter), ("filtfilt", filtfilt), ("sosfiltfilt", sosfiltfilt)):
+            setattr(qs, name, fn)
+        qt.taper = taper
+        return self
+
+    def __exit__(self, *exc):
+        for k, v in self.saved.items():
+            if v is None:
+                try:
+                    delattr(self.qs, k)
+                except AttributeError:
+                    pass
+            else:
+                setattr(self.qs, k, v)
+        if self.saved_taper is not None:
+            self.qt.taper = self.saved_taper
+        else:
+            try:
+                del self.qt.taper
+            except AttributeError:
+                pass
+        return False
+
+
+def F(v):
+    from fractions import Fraction
+    return Fraction(v)
+
+
+def gen_tag_case(rng):
+    """small dyadic series + request for the exact tie; `route` = get (tsGet) or filter (tsFilter, any number of frequencies)"""
+    from fractions import Fraction
+    n = rng.choice([3, 4, 5, 8, 9, 16, 24])
+    if rng.random() < 0.7:
+        h = Fraction(1, rng.choice([1, 2, 4, 8])) * rng.choice([1, 2])
+        t0 = Fraction(rng.randint(-8, 8), 2)
+        t = [t0 + i * h for i in range(n)]
+    else:
+        t = [Fraction(rng.randint(-8, 8), 2)]
+        for _ in range(n - 1):
+            t.append(t[-1] + Fraction(rng.choice([1, 2, 3, 5]), rng.choice([2, 4, 8])))
+    x = [Fraction(rng.randint(-64, 64), rng.choice([1, 2, 4])) for _ in range(n)]
+    route = rng.choice(["get", "get", "filter"])
+    kind = rng.choice(KINDS)
+    arity = 1 if kind in ("lp", "hp") else 2
+    nf = arity if (route == "get" or rng.random() < 0.65) else rng.choice([0, 1, 2, 3])
+    freqs = sorted(Fraction(rng.randint(1, 24), rng.choice([16, 32, 64, 128])) for _ in range(nf))
+    lo, hi = t[0], t[-1]
+    o = dict(twin=None, resample=None, taper=rng.random() < 0.4)
+    if rng.random() < 0.5:
+        a = rng.choice([lo, t[len(t) // 3], lo - 1, lo + (hi - lo) * Fraction(rng.randint(0, 8), 8), hi + 1])
+        b = rng.choice([hi, t[-2], hi + 1, a + (hi - a) * Fraction(rng.randint(0, 8), 8), lo - 1, a])
+        o["twin"] = (a, b)
+    if route == "get":
+        u = rng.random()
+        if u < 0.35:
+            o["resample"] = ("step", (hi - lo) * Fraction(1, rng.choice([1, 2, 3, 4, 5, 7, 8])) * rng.choice([Fraction(1), Fraction(3, 2), Fraction(1, 2)]))
+        elif u < 0.5 and o["twin"] is None:
+            m = rng.choice([2, 3, 5, 8])
+            # strictly increasing (two equal leading times would ask for a filter with dt = 0: division by zero in the code)
+            pts = sorted(set(rng.choice([lo + (hi - lo) * Fraction(rng.randint(0, 16), 16), t[rng.randrange(len(t))]]) for _ in range(m)))
+            if rng.random() < 0.2:
+                pts.append(hi + Fraction(1, 8))
+            o["resample"] = ("arr", pts)
+        elif u < 0.56 and o["twin"] is not None:
+            o["resample"] = ("arr", [lo, hi])           # array + window: refused
+    if o["resample"] is not None and o["resample"][0] == "step":
+        # the number of grid points is round((t1-t0)/d): keep exact .5 ties (round-half-even on a rounded quotient) out of the exact tie
+        tw = [u_ for u_ in t if o["twin"] is None or o["twin"][0] <= u_ <= o["twin"][1]]
+        if len(tw) >= 2:
+            ratio = (tw[-1] - tw[0]) / o["resample"][1]
+            if (2 * ratio).denominator == 1 and (2 * ratio).numerator % 2 == 1:
+                o["resample"] = ("step", o["resample"][1] * Fraction(9, 8))
+    if o["resample"] is None and o["twin"] is not None and len(set(b - a for a, b in zip(t, t[1:]))) > 1:
+        # irregular series are first resampled to their mean step over the window: same tie in the number of grid points
+        tw = [u_ for u_ in t if o["twin"][0] <= u_ <= o["twin"][1]]
+        if len(tw) >= 2:
+            ratio = (tw[-1] - tw[0]) / ((t[-1] - t[0]) / (len(t) - 1))
+            if (2 * ratio).denominator == 1 and (2 * ratio).numerator % 2 == 1:
+                o["twin"] = None
+    sp = dict(fargs=rng.choice(["tuple", "list"]), num=rng.choice(["float", "float", "int-if-integral", "np.float64"]),
+              single=rng.choice(["number", "tuple", "list"]), twin=rng.choice(["tuple", "list"]), array=rng.choice(["ndarray", "list"]))
+    if o["twin"] is not None:
+        sp["array"] = "ndarray"     # the refusal of array + window is modelled (and coded) for numpy arrays; a list slips through the assert
+    return dict(level="tagged", route=route, kind=kind, freqs=[str(v) for v in freqs], t=[str(v) for v in t], x=[str(v) for v in x],
+                twin=None if o["twin"] is None else [str(v) for v in o["twin"]],
+                resample=None if o["resample"] is None else [o["resample"][0], str(o["resample"][1]) if o["resample"][0] == "step"
+                                                            else [str(v) for v in o["resample"][1]]],
+                taper=o["taper"], spell=sp)
+
+
+def tag_line(case):
+    from ..core import rat
+    tw = "-" if case["twin"] is None else "%s,%s" % (rat(F(case["twin"][0])), rat(F(case["twin"][1])))
+    rs = case["resample"]
+    rs = "-" if rs is None else ("step:" + rat(F(rs[1])) if rs[0] == "step" else "arr:" + ",".join(rat(F(v)) for v in rs[1]))
+    return "flt.%s %s %s | twin=%s res=%s taper=%d filter=1 smooth=0 | %s | %s" % (
+        "tsget" if case["route"] == "get" else "tsfilter", case["kind"], " ".join(rat(F(v)) for v in case["freqs"]), tw, rs, case["taper"],
+        " ".join(rat(F(v)) for v in case["t"]), " ".join(rat(F(v)) for v in case["x"]))
+
+
+def tag_err(e):
+    if isinstance(e, AssertionError):
+        return "err assertion"
+    if isinstance(e, IndexError):
+        return "err index"
+    if isinstance(e, ValueError):
+        return "err value" if "frequenc" in str(e).lower() else "err bounds"
+    return "err %s: %s" % (type(e).__name__, e)
+
+
+def tag_impl(case):
+    """the real TimeSeries.get / TimeSeries.filter with the tag functions, issued twice on the same object"""
+    from qats import TimeSeries
+    sp = case.get("spell") or {}
+
+    def num(v):
+        v = F(v)
+        if sp.get("num") == "int-if-integral" and v.denominator == 1:
+            return int(v)
+        return np.float64(float(v)) if sp.get("num") == "np.float64" else float(v)
+    tf, xf = np.array([float(F(v)) for v in case["t"]]), np.array([float(F(v)) for v in case["x"]])
+    ts = TimeSeries("s", tf.copy(), xf.copy())
+    fr = [num(v) for v in case["freqs"]]
+    kw = {}
+    if case["twin"] is not None:
+        kw["twin"] = (list if sp.get("twin") == "list" else tuple)(float(F(v)) for v in case["twin"])
+    if case["taper"]:
+        kw["taperfrac"] = 0.1
+    res = []
+    with TagScipy():
+        for _ in range(2):
+            try:
+                if case["route"] == "get":
+                    if case["resample"] is not None:
+                        r = case["resample"]
+                        kw["resample"] = float(F(r[1])) if r[0] == "step" else \
+                            (np.array([float(F(v)) for v in r[1]]) if sp.get("array") != "list" else [float(F(v)) for v in r[1]])
+                    fa = [case["kind"]] + fr
+                    tt, xx = ts.get(filterargs=fa if sp.get("fargs") == "list" else tuple(fa), **kw)
+                else:
+                    freq = fr[0] if (len(fr) == 1 and sp.get("single", "number") == "number") else (fr if sp.get("single") == "list" else tuple(fr))
+                    tt, xx = ts.filter(case["kind"], freq, **kw)
+                res.append(("ok", np.asarray(tt, dtype=float), np.asarray(xx, dtype=float)))
+            except Exception as e:
+                res.append((tag_err(e),))
+    return res
+
+
+TAG_STATS = dict(exact=0, close=0)
+
+
+def tag_exact_expected(case, model):
+    """True when every float operation of the real pipeline is exact for this request, so that the implementation must
+    reproduce the model's rationals bit for bit: every number of the model's reply is a dyadic rational (denominator <= 2^40),
+    no interpolation onto a requested array, every stored time step is a power of two (interp1d divides by it), and the mean
+    taken before tapering is over a power-of-two number of samples"""
+    if not model.startswith("ok") or (case["resample"] is not None and case["resample"][0] == "arr"):
+        return False
+    ts_ = [F(v) for v in case["t"]]
+    for d in (b - a for a, b in zip(ts_, ts_[1:])):
+        if d <= 0 or d.numerator & (d.numerator - 1) or d.denominator & (d.denominator - 1):
+            return False
+    parts = model[3:].split("|")
+    vals = [F(v) for v in model[3:].replace("|", " ").split()]
+    if not all(v.denominator & (v.denominator - 1) == 0 and v.denominator <= 2 ** 40 for v in vals):
+        return False
+    nt = len(parts[0].split())
+    return (not case["taper"]) or (nt & (nt - 1) == 0)
+
+
+def tag_compare(model, im, exact=False):
+    """None if the model's reply and the implementation's result agree: bit for bit when `exact` (see tag_exact_expected),
+    else to 1e-12 (irregular steps, non-dyadic resampling steps, mean of a number of samples that is not a power of two)"""
+    if model.startswith("err") or im[0] != "ok":
+        return None if model.strip() == im[0] else "outcome"
+    mt, mx = [[float(F(v)) for v in part.split()] for part in model[3:].split("|")]
+    if len(mt) != len(im[1]) or len(mx) != len(im[2]):
+        return "lengths"
+    if np.array_equal(mt, im[1]) and np.array_equal(mx, im[2]):
+        TAG_STATS["exact"] += 1
+        return None
+    nd = len(mx) - len(mt)
+    if exact:
+        return "time array (exact comparison)" if not np.array_equal(mt, im[1]) else \
+            ("design written by the filter stage (exact comparison)" if not np.array_equal(mx[:nd], im[2][:nd]) else "samples handed to the filter stage (exact comparison)")
+    TAG_STATS["close"] += 1
+    if not np.allclose(mt, im[1], rtol=1e-12, atol=1e-12):
+        return "time array"
+    if not np.allclose(mx, im[2], rtol=1e-11, atol=1e-11):
+        return "design written by the filter stage" if not np.allclose(mx[:nd], im[2][:nd], rtol=1e-11, atol=1e-11) else "samples handed to the filter stage"
+    return None
 
 
 def slim(case):
@@ -520,13 +1274,19 @@ def run(chk):
     n_extra = 40 if chk.quick else 1200
     n_ts = dict(plain=8, window=8, step=10, **{"window+step": 8}, array=8, taper=6, irregular=5) if chk.quick else \
         dict(plain=150, window=150, step=250, **{"window+step": 150}, array=150, taper=100, irregular=60)
+    n_boundary, n_spelled, n_ts_spelled, n_hist, n_seq, n_tag = (30, 100, 60, 14, 8, 600) if chk.quick else (1200, 2500, 900, 200, 150, 6000)
 
-    cases = [dict(c) for c in core.load_corpus("C12")]
-    cases = [c for c in cases if c.get("level") in ("signal", "ts")]
-    for c in cases:
+    def with_jitter(c):
         if c.get("variant") == "irregular" and "jitter" not in c:
             r2 = __import__("random").Random(c.get("jitter_seed", 0))
             c["jitter"] = [r2.uniform(-0.2, 0.2) for _ in range(c["n"] - 2)]
+        return c
+
+    corpus = [dict(c) for c in core.load_corpus("C12")]
+    cases = [with_jitter(c) for c in corpus if c.get("level") in ("signal", "ts")]
+    hist_cases = [c for c in corpus if c.get("level") == "hist"]
+    seq_cases = [c for c in corpus if c.get("level") == "seq"]
+    tag_cases = [c for c in corpus if c.get("level") == "tagged"]
     cases += corner_cases()
     for kind in KINDS:                                  # every type is sampled even in a tiny run
         cases.append(gen_signal_case(rng, lo, kind))
@@ -541,6 +1301,22 @@ def run(chk):
                 c["jitter_seed"] = js
                 c["jitter"] = [r2.uniform(-0.2, 0.2) for _ in range(c["n"] - 2)]
             cases.append(c)
+    # the rim of the quantifier, other spellings of the same request, other routes to the filters
+    for kind in KINDS:                                  # every type in other units, on a large mean level, at the rim of the ranges
+        for what, p2 in (("pow2", -200), ("pow2", -40), ("pow2", 100), ("offset", None), ("dt", None), ("cut-high", None)):
+            cases.append(gen_boundary_case(rng, lo, what, kind, p2))
+    for what in ("f-low", "f-high"):
+        cases.append(gen_boundary_case(rng, lo, what))
+    for _ in range(n_boundary):
+        cases.append(gen_boundary_case(rng, lo))
+    for _ in range(n_spelled):
+        cases.append(gen_spelled_signal_case(rng, lo))
+    ts_variants = ("plain", "window", "step", "window+step", "array", "taper")
+    for i in range(n_ts_spelled):
+        cases.append(gen_ts_case(rng, lo, ts_variants[i % len(ts_variants)], spelled=True))
+    hist_cases += [gen_hist_case(rng) for _ in range(n_hist)]
+    seq_cases += [gen_seq_case(rng) for _ in range(n_seq)]
+    tag_cases += [gen_tag_case(rng) for _ in range(n_tag)]
 
     # ---- implementation side ------------------------------------------------------------------------------------------
     lines, meta = [], []
@@ -550,19 +1326,26 @@ def run(chk):
     for case in cases:
         inp = slim(case)
         kind, fcs, f, A, ph, mean = (case[k] for k in ("kind", "fcs", "f", "A", "ph", "mean"))
-        if case["level"] == "signal":
-            fails, meas, rec = sig_clauses(case, want_rec=True)
-            dt_model = case["dt"]
-            stream = ""
-            if n_extra_done < n_extra:
-                n_extra_done += 1
-                vals = (rng.uniform(-3, 3), rng.uniform(-3, 3), rng.uniform(0.02, 0.9) * 0.5 / case["dt"], rng.uniform(-3, 3))
-                case["extra"] = inp["extra"] = list(vals)
-                fails += extra_clauses(case, vals)
-                chk.count("oracle.linear-mean-sum")
-        else:
-            fails, meas, rec, dt_model = ts_clauses(case, want_rec=True)
-            stream = "ts."
+        sp = case.get("spell") or {}
+        probe = None
+        try:
+            if case["level"] == "signal":
+                fails, meas, rec = sig_clauses(case, want_rec=True)
+                dt_model = case["dt"]
+                stream = ""
+                if n_extra_done < n_extra:
+                    n_extra_done += 1
+                    vals = (rng.uniform(-3, 3), rng.uniform(-3, 3), rng.uniform(0.02, 0.9) * 0.5 / case["dt"], rng.uniform(-3, 3))
+                    case["extra"] = inp["extra"] = list(vals)
+                    fl, probe = extra_clauses(case, vals)
+                    fails += fl
+                    chk.count("oracle.linear-mean-sum")
+            else:
+                fails, meas, rec, dt_model = ts_clauses(case, want_rec=case.get("via") != "trace")
+                stream = "ts."
+        except Exception as e:                           # whatever the implementation returned made the evaluation itself fail
+            fails, meas, rec, dt_model = [(O_RETURNS, "a filtered signal the clauses can be evaluated on", "%s: %s" % (type(e).__name__, e))], None, None, None
+            stream = "" if case["level"] == "signal" else "ts."
         for (oracle, exp, obs) in fails:
             chk.fail(oracle, inp, exp, obs, measured=meas)
         if meas is not None:
@@ -571,30 +1354,103 @@ def run(chk):
                 / (A + abs(mean))
             worst[key] = max(worst.get(key, 0.0), dev)
         chk.dist("%s%s:%s" % (stream, case.get("variant", "signal"), kind))
+        if "boundary" in case:
+            chk.dist("boundary:" + case["boundary"])
+        if sp:
+            chk.count("spelled")
+            for k_, v_ in sorted(sp.items()):
+                chk.dist("spelling %s%s=%s" % (stream, k_, v_))
+        if case.get("via"):
+            chk.dist("route:" + case["via"])
+        if case.get("twice"):
+            chk.count("second-call-same-array")
         if meas is None or dt_model is None:
             # no result: the model side still says what the design should have been (for the record)
             if rec is not None and case["level"] == "signal":
                 lines.append(design_line(kind, case["dt"], fcs))
                 meta.append(("design", stream, case, inp, rec, None))
             continue
-        lines.append(design_line(kind, dt_model, fcs))
-        meta.append(("design", stream, case, inp, rec, meas))
+        if rec is not None:
+            lines.append(design_line(kind, dt_model, fcs))
+            meta.append(("design", stream, case, inp, rec, meas))
         lines.append("flt.steady %s %s %s %s | %s %s %s" % (kind, fbits(dt_model), fbits(mean), " ".join(fbits(v) for v in fcs),
                                                             fbits(A), fbits(f), fbits(ph)))
         meta.append(("steady", stream, case, inp, rec, meas))
         lines.append("flt.gain %s 5 %s %s %s" % (kind, fbits(dt_model), fbits(f), " ".join(fbits(v) for v in fcs)))
         meta.append(("spec", stream, case, inp, rec, meas))
+        if probe is not None:
+            a_, b_, f2, ph2 = case["extra"]
+            lines.append("flt.lin %s %s %s | %s %s %s %s %s | %s %s %s %s %s | %s" % (
+                kind, fbits(case["dt"]), " ".join(fbits(v) for v in fcs), fbits(a_), fbits(mean), fbits(A), fbits(f), fbits(ph),
+                fbits(b_), fbits(0.0), fbits(1.0), fbits(f2), fbits(ph2 + 0.5 * math.pi), " ".join(fbits(v) for v in probe["t"])))
+            meta.append(("lin", stream, case, inp, probe, meas))
+
+    # ---- histories on one object, sequences of calls in one process ----------------------------------------------------------------
+    for case in hist_cases:
+        try:
+            fails, done, w = hist_clauses(case)
+        except Exception as e:
+            fails, done, w = [(O_RETURNS, "results the clauses can be evaluated on", "%s: %s" % (type(e).__name__, e))], 0, 0.0
+        chk.count("history-step", done)
+        chk.count("history")
+        for st in case["steps"]:
+            chk.dist("history op:" + st["op"])
+        worst["history"] = max(worst.get("history", 0.0), w)
+        if done:
+            chk.nontriv(repr(case))
+        for (oracle, exp, obs) in fails:
+            chk.fail(oracle, case, exp, obs)
+    for case in seq_cases:
+        try:
+            fails, w = seq_clauses(case)
+        except Exception as e:
+            fails, w = [(O_RETURNS, "results the clauses can be evaluated on", "%s: %s" % (type(e).__name__, e))], 0.0
+        chk.count("sequence-call", len(case["steps"]))
+        chk.count("sequence")
+        worst["sequence"] = max(worst.get("sequence", 0.0), w)
+        for (oracle, exp, obs) in fails:
+            chk.fail(oracle, case, exp, obs)
+
+    # ---- exact tie of tsGet / tsFilter (tag functions), arity ----------------------------------------------------------------------
+    for case in tag_cases:
+        lines.append(tag_line(case))
+        try:
+            res = tag_impl(case)
+        except Exception as e:
+            res = [("err harness %s: %s" % (type(e).__name__, e),)] * 2
+        meta.append(("tagged", "ts.", case, case, res, None))
+    for kind in KINDS:
+        lines.append("flt.arity " + kind)
+        meta.append(("arity", "", dict(kind=kind), dict(level="arity", kind=kind), arity_impl(kind), None))
 
     # ---- model side ---------------------------------------------------------------------------------------------------
     outs = drv.run(lines)
+    TAG_STATS.update(exact=0, close=0)
     design_notes = set()
     for (what, stream, case, inp, rec, meas), o in zip(meta, outs):
+        if what == "tagged":
+            nm = "ts.tagged" if case["route"] == "get" else "ts.tagged-filter"
+            chk.count(nm)
+            chk.dist("tagged %s: %s" % (case["route"], o.split("|")[0].strip() if o.startswith("err") else "ok"))
+            if case["twin"] or case["resample"] or case["taper"] or o.startswith("err"):
+                chk.nontriv(repr(inp))
+            for nth, im in ((nm, rec[0]), (nm + " (same call repeated)", rec[1])):
+                why = tag_compare(o, im, exact=tag_exact_expected(case, o))
+                if why is not None:
+                    chk.disagree(nth, dict(inp, differs_in=why), o[:400], [im[0]] + [v.tolist()[:12] for v in im[1:]])
+            continue
+        if what == "arity":
+            chk.count("arity")
+            if o.split() != ["ok", str(rec)]:
+                chk.disagree("arity", inp, o, rec)
+            continue
         A, mean, f, ph = case["A"], case["mean"], case["f"], case["ph"]
         sc = A + abs(mean)
         tol = TOL_IRR if case.get("variant") == "irregular" else TOL
         if what == "design":
             chk.count(stream + "design")
-            why = compare_design(o, rec, design_notes)
+            single = "np.float32" in (case.get("spell") or {}).values()
+            why = compare_design(o, rec, design_notes, wn_tol=2e-7 if single else 1e-14)
             if why is not None:
                 chk.disagree(stream + "design", dict(inp, differs_in=why), o, jsonable(rec))
         elif what == "steady":
@@ -606,7 +1462,7 @@ def run(chk):
             m_mean, m_amp, m_f, m_ph = (unfbits(v) for v in tok[1:])
             g = complex(*meas["gain"])
             # the model keeps frequency and phase: the fitted complex gain (relative to the input phase) must be real
-            if m_f != f or m_ph != ph or abs(g * A - m_amp) > tol * sc or abs(meas["mean"] - m_mean) > tol * sc:
+            if m_f != f or m_ph != ph or not abs(g * A - m_amp) <= tol * sc or not abs(meas["mean"] - m_mean) <= tol * sc:
                 chk.disagree(stream + "steady", inp, dict(mean=m_mean, amp=m_amp, freq=m_f, phase=m_ph),
                              dict(mean=meas["mean"], amp=[g.real * A, g.imag * A], freq=f, phase=ph))
             G = m_amp / A
@@ -614,6 +1470,13 @@ def run(chk):
                 chk.nontriv(repr(inp))
             if len(chk.samples) < 4 and 0.01 < G < 0.99:
                 chk.sample(dict(inp, model_amp=m_amp, impl_gain=meas["gain"]))
+        elif what == "lin":
+            chk.count("lin")
+            tok = o.split()
+            probe = rec
+            vals = [unfbits(v) for v in tok[1:]] if tok[0] == "ok" else []
+            if len(vals) != len(probe["y"]) or not all(abs(u - v) <= TOL * probe["scale"] for u, v in zip(vals, probe["y"])):
+                chk.disagree("lin", inp, vals, probe["y"])
         else:
             chk.count("spec")
             tok = o.split()
@@ -622,36 +1485,101 @@ def run(chk):
                 chk.disagree("spec", inp, Gm, meas["ref"])
 
     chk.notes += sorted("design: " + n for n in design_notes)
+    chk.extra["tagged_tie_results_bit_exact_vs_within_1e-12"] = [TAG_STATS["exact"], TAG_STATS["close"]]
 
     # ---- the same cut-off used with different sampling intervals in one process (state carried between calls would show) -------------
-    from qats.signal import lowpass, highpass
-    for flt, nm in ((lowpass, "lp"), (highpass, "hp")):
+    for nm in ("lp", "hp"):
         for fc in (0.1, rng.choice([0.05, 0.2, 0.25])):
-            for dt in (0.1, 1.0, 0.5, 0.1):
-                if fc >= 0.45 / dt:
-                    continue
-                n = record_length(dt, [fc])
-                t = np.arange(n) * dt
-                y = flt(np.sin(2 * np.pi * fc * t), dt, fc)
-                g, _, _ = fit(t, y, fc, 0.0, 1.0)
-                chk.count("cutoff-sequence")
-                if abs(g - 0.5) > 2e-3:
-                    chk.fail("gain 1/2 at the cut-off for any sampling interval (same cut-off reused with another dt in the same process)",
-                             dict(kind="cutoff-sequence", filter=nm, fc=fc, dts=[0.1, 1.0, 0.5, 0.1], failing_dt=dt), 0.5, [g.real, g.imag])
+            fl = cutoff_sequence(nm, fc)
+            chk.count("cutoff-sequence", 4)
+            for oracle, inp, exp, obs in fl:
+                chk.fail(oracle, inp, exp, obs)
 
     # ---- the series-level filter call equals retrieval with the same filter arguments, whatever numeric type the cut-off has --------
-    from qats import TimeSeries
-    t = np.arange(2001) * 0.1
-    ts = TimeSeries("c12", t, np.sin(2 * np.pi * 0.5 * t))
-    for ftype, fr in (("lp", 1), ("hp", np.float32(0.5)), ("bp", [0.25, 2]), ("bs", (1, 2.0))):
+    for i in range(len(ARG_TYPES)):
         chk.count("filter-arg-types")
-        fa = (ftype,) + (tuple(fr) if isinstance(fr, (list, tuple)) else (fr,))
-        r_get, e_get = call(ts.get, filterargs=fa)
-        r_flt, e_flt = call(ts.filter, ftype, fr)
+        for oracle, inp, exp, obs in arg_types(i):
+            chk.fail(oracle, inp, exp, obs)
+
+
+DTS_SEQ = [0.1, 1.0, 0.5, 0.1]
+
+
+def cutoff_sequence(nm, fc):
+    """one cut-off reused with several sampling intervals in one process: gain 1/2 at the cut-off every time"""
+    import qats.signal as qs
+    out = []
+    for dt in DTS_SEQ:
+        if fc >= 0.45 / dt:
+            continue
+        n = record_length(dt, [fc])
+        t = np.arange(n) * dt
+        y, err = call(getattr(qs, FUNC[nm]), np.sin(2 * np.pi * fc * t), dt, fc)
+        inp = dict(kind="cutoff-sequence", filter=nm, fc=fc, dts=DTS_SEQ, failing_dt=dt)
+        if err is None:
+            try:
+                g, _, _ = fit(t, np.asarray(y, dtype=float), fc, 0.0, 1.0)
+            except Exception as e:
+                err = "%s: %s" % (type(e).__name__, e)
+        if err is not None:
+            out.append((O_RETURNS, inp, "a filtered signal", err))
+        elif not abs(g - 0.5) <= 2e-3:
+            out.append(("gain 1/2 at the cut-off for any sampling interval (same cut-off reused with another dt in the same process)",
+                        inp, 0.5, [g.real, g.imag]))
+    return out
+
+
+ARG_TYPES = (("lp", 1), ("hp", np.float32(0.5)), ("bp", [0.25, 2]), ("bs", (1, 2.0)), ("lp", np.int64(2)), ("bp", (np.float64(0.25), 1)))
+
+
+def arg_types(i):
+    """filter() == get() for integer / numpy / list cut-offs, and (independent reference: both could share a fault) the response
+    of that result is the one for the cut-offs' numeric values"""
+    from qats import TimeSeries
+    ftype, fr = ARG_TYPES[i]
+    inp = dict(filtertype=ftype, freq=str(fr), kind="arg-types", index=i)
+    A, f0, ph, mean, dt = 1.0, 0.5, 0.3, 1.5, 0.1
+    t = np.arange(8001) * dt
+    out = []
+    ts, err = call(TimeSeries, NAME, t, mean + A * np.sin(2 * np.pi * f0 * t + ph))
+    if err is not None:
+        return [(O_RETURNS, inp, "a TimeSeries", err)]
+    fa = (ftype,) + (tuple(fr) if isinstance(fr, (list, tuple)) else (fr,))
+    r_get, e_get = call(ts.get, filterargs=fa)
+    r_flt, e_flt = call(ts.filter, ftype, fr)
+    try:
         ok = e_get is None and e_flt is None and np.array_equal(r_get[1], r_flt[1])
-        if not ok:
-            chk.fail("the series-level filter call equals retrieval with the same filter arguments (integer / numpy / list cut-offs)",
-                     dict(filtertype=ftype, freq=str(fr), kind="arg-types"), "equal arrays", "get: %s, filter: %s" % (e_get, e_flt))
+    except Exception as e:
+        ok, e_get = False, "%s: %s" % (type(e).__name__, e)
+    if not ok:
+        out.append(("the series-level filter call equals retrieval with the same filter arguments (integer / numpy / list cut-offs)",
+                    inp, "equal arrays", "get: %s, filter: %s" % (e_get, e_flt)))
+    if e_get is None:
+        c = dict(kind=ftype, fcs=[float(v) for v in fa[1:]], f=f0, A=A, ph=ph, mean=mean, dt=dt, k=1, variant="plain")
+        try:
+            fl, _, _ = ts_response(c, r_get[0], r_get[1], " [cut-offs given as %s]" % str(fr))
+        except Exception as e:
+            fl = [(O_RETURNS, "(time, data)", "%s: %s" % (type(e).__name__, e))]
+        out += [(o, inp, e, ob) for o, e, ob in fl]
+    return out
+
+
+def arity_impl(kind):
+    """the number of frequencies TimeSeries.filter accepts for the type (None if not exactly one of 0..3)"""
+    from qats import TimeSeries
+    t = np.arange(400) * 0.5
+    ts = TimeSeries(NAME, t, np.sin(0.3 * t))
+    ok = []
+    for nf in range(4):
+        freq = tuple([0.1, 0.2, 0.3][:nf])
+        try:
+            ts.filter(kind, freq)
+            ok.append(nf)
+        except ValueError:
+            pass
+        except Exception:
+            ok.append(-1 - nf)
+    return ok[0] if len(ok) == 1 else ok
 
 
 # ----------------------------------------------------------------------------------------------------------------------
@@ -662,29 +1590,87 @@ def replay(rp):
         return 1
     inp = dict(src)
     inp.pop("differs_in", None)
+    level = inp.get("level")
+
+    def show(fails):
+        for oracle, exp, obs in fails:
+            print("FAILS: %s\n   expected %s\n   observed %s" % (oracle, exp, obs))
+        print("replay: %d failing clause(s)" % len(fails))
+        return 1 if fails else 0
+    # inputs of the fixed sequences at the end of run()
+    if inp.get("kind") == "cutoff-sequence":
+        print("input   ", inp)
+        return show([(o, e, ob) for o, i_, e, ob in cutoff_sequence(inp["filter"], inp["fc"])])
+    if inp.get("kind") == "arg-types":
+        print("input   ", inp)
+        idx = inp.get("index")
+        if idx is None:
+            idx = [j for j, (ft, fr) in enumerate(ARG_TYPES) if ft == inp.get("filtertype") and str(fr) == inp.get("freq")][0]
+        return show([(o, e, ob) for o, i_, e, ob in arg_types(idx)])
+    if level == "hist":
+        print("input   ", {k: v for k, v in inp.items() if k != "steps"})
+        for i, st in enumerate(inp["steps"]):
+            print("   step %d: %s" % (i + 1, st))
+        try:
+            fails, done, w = hist_clauses(inp)
+        except Exception as e:
+            fails = [(O_RETURNS, "results the clauses can be evaluated on", "%s: %s" % (type(e).__name__, e))]
+        return show(fails)
+    if level == "seq":
+        print("input   ", inp)
+        try:
+            fails, w = seq_clauses(inp)
+        except Exception as e:
+            fails = [(O_RETURNS, "results the clauses can be evaluated on", "%s: %s" % (type(e).__name__, e))]
+        return show(fails)
+    if level == "arity":
+        got = arity_impl(inp["kind"])
+        print("TimeSeries.filter(%r, …) accepts %s frequencies" % (inp["kind"], got))
+        try:
+            o = core.Driver().run(["flt.arity " + inp["kind"]])[0]
+            print("model:", o)
+            return 0 if o.split() == ["ok", str(got)] else 1
+        except core.InfraError as e:
+            print("model not available:", e)
+            return 1
+    if level == "tagged":
+        print("input   ", inp)
+        res = tag_impl(inp)
+        for nth, im in zip(("first call ", "second call"), res):
+            print(nth, im[0], *[v.tolist() for v in im[1:]])
+        try:
+            o = core.Driver().run([tag_line(inp)])[0]
+        except core.InfraError as e:
+            print("model not available:", e)
+            return 1
+        print("model      ", o)
+        whys = [tag_compare(o, im, exact=tag_exact_expected(inp, o)) for im in res]
+        for nth, why in zip(("first call ", "second call"), whys):
+            print(nth, "agrees with the model" if why is None else "DIFFERS from the model in: " + why)
+        return 1 if any(w is not None for w in whys) else 0
     if inp.get("variant") == "irregular":
         r2 = __import__("random").Random(inp.get("jitter_seed", 0))
         inp["jitter"] = [r2.uniform(-0.2, 0.2) for _ in range(inp["n"] - 2)]
-    if inp.get("level") == "signal":
-        fails, meas, rec = sig_clauses(inp, want_rec=True)
-        if inp.get("extra"):
-            fails += extra_clauses(inp, tuple(inp["extra"]))
-        dt_model = inp["dt"]
-    else:
-        fails, meas, rec, dt_model = ts_clauses(inp, want_rec=True)
+    try:
+        if level == "signal":
+            fails, meas, rec = sig_clauses(inp, want_rec=True)
+            if inp.get("extra"):
+                fails += extra_clauses(inp, tuple(inp["extra"]))[0]
+            dt_model = inp["dt"]
+        else:
+            fails, meas, rec, dt_model = ts_clauses(inp, want_rec=inp.get("via") != "trace")
+    except Exception as e:
+        fails, meas, rec, dt_model = [(O_RETURNS, "a filtered signal the clauses can be evaluated on", "%s: %s" % (type(e).__name__, e))], None, None, None
     print("input   ", {k: v for k, v in inp.items() if k != "jitter"})
     print("measured", meas)
     print("recorded", jsonable(rec) if rec else rec)
-    for oracle, exp, obs in fails:
-        print("FAILS: %s\n   expected %s\n   observed %s" % (oracle, exp, obs))
-    bad = len(fails)
     if dt_model is not None and rec is not None:
         try:
             drv = core.Driver()
             o = drv.run([design_line(inp["kind"], dt_model, inp["fcs"])])[0]
-            why = compare_design(o, rec)
+            single = "np.float32" in (inp.get("spell") or {}).values()
+            why = compare_design(o, rec, wn_tol=2e-7 if single else 1e-14)
             print("model design:", o, "->", "agrees" if why is None else "DIFFERS in " + why)
         except core.InfraError as e:
             print("model not available:", e)
-    print("replay: %d failing clause(s)" % bad)
-    return 1 if bad else 0
+    return show(fails)
